@@ -160,9 +160,59 @@ theorem C03_builders_refine (o : Ora) (id reqID acs ii untl status msg issuer au
         a.Version = "2.0") :=
   ⟨Builders.makeResponse_refines o id reqID acs ii status msg issuer, Builders.makeAssertion_refines o reqID acs ii untl issuer nameID attrs aud⟩
 
+open Builders in
+private theorem makeAssertionResponse_refines (o : Ora) (resp : provider_Response) (ii untl : String) (attrs : provider_Attributes)
+    (hsend : resp.SendIP = "") :
+    ∃ r, Response_makeAssertionResponse o (some resp) ii untl (some attrs) = .ok (some r) ∧
+      msgOf r (assertionOf r.Assertion) =
+        { Callback.mkResponse (o.newID "Response_makeAssertionResponse" 0) resp.RequestID resp.AcsUrl ii statusSuccess "" resp.Issuer with
+          assertion := some (Callback.mkAssertion (o.newID "makeAssertion" 0) resp.RequestID resp.AcsUrl ii untl resp.Issuer
+            (some { Format := "urn:oasis:names:tc:SAML:1.1:nameid-format:emailAddress", Text := attrs.username }) (specAttrs attrs) resp.Audience) } := by
+  obtain ⟨r, hr, hm, _⟩ := makeResponse_refines o (o.newID "Response_makeAssertionResponse" 0) resp.RequestID resp.AcsUrl ii
+    "urn:oasis:names:tc:SAML:2.0:status:Success" "" resp.Issuer
+  obtain ⟨a, ha, hp, _⟩ := makeAssertion_refines o resp.RequestID resp.AcsUrl ii untl resp.Issuer
+    (some { Format := "urn:oasis:names:tc:SAML:1.1:nameid-format:emailAddress", Text := attrs.username }) (specAttrs attrs) resp.Audience
+  refine ⟨{ r with Assertion := a }, ?_, ?_⟩
+  · simp [Response_makeAssertionResponse, Response_makeAssertionResponse.body, Ctl.toRes, deref, hr, getNameID_eq, getSAML_eq, hsend, ha,
+      Res.isPanic, Res.get]
+  · simp only [msgOf] at hm ⊢
+    rw [hp]
+    simp only [Callback.mkResponse, statusSuccess] at hm ⊢
+    simp_all
+
+/-- **the Success message is the generated one**: `makeSuccessfulResponse` as regenerated from response.go — through
+    `makeAssertionResponse`, `makeResponse`, `makeAssertion`, `GetNameID`, `GetSAML`, all regenerated — never panics for
+    the `Response` the callback fills in and builds exactly the message of the callback model's Success branch; the two
+    identifiers are the ones `NewID()` returned at the two call sites, the instants are `time.Now()` and
+    `time.Now().Add(expiration)` in the configured layout -/
+theorem C03_success_message_is_generated (o : Ora) (i : Callback.In) (rec : Callback.Rec) (aud fmt : String) (exp : Int)
+    (attrs : provider_Attributes)
+    (hid0 : i.ids 0 = o.newID "Response_makeAssertionResponse" 0) (hid1 : i.ids 1 = o.newID "makeAssertion" 0)
+    (hii : i.issueInstant = o.m_Format o.now fmt) (hun : i.untilInstant = o.m_Format (o.now + exp) fmt) :
+    ∃ r, Response_makeSuccessfulResponse o
+        (some { AcsUrl := rec.acs, RequestID := rec.reqID, Issuer := i.issuer, Audience := aud, SendIP := "" }) (some attrs) fmt exp = .ok (some r) ∧
+      Builders.msgOf r (Builders.assertionOf r.Assertion) =
+        { Callback.mkResponse (i.ids 0) rec.reqID rec.acs i.issueInstant statusSuccess "" i.issuer with
+          assertion := some (Callback.mkAssertion (i.ids 1) rec.reqID rec.acs i.issueInstant i.untilInstant i.issuer
+            (some { Format := "urn:oasis:names:tc:SAML:1.1:nameid-format:emailAddress", Text := attrs.username }) (specAttrs attrs) aud) } := by
+  obtain ⟨r, hr, hm⟩ := makeAssertionResponse_refines o
+    { AcsUrl := rec.acs, RequestID := rec.reqID, Issuer := i.issuer, Audience := aud, SendIP := "" }
+    (o.m_Format o.now fmt) (o.m_Format (o.now + exp) fmt) attrs rfl
+  refine ⟨r, ?_, ?_⟩
+  · simp [Response_makeSuccessfulResponse, Response_makeSuccessfulResponse.body, Ctl.toRes, hr, Res.isPanic, Res.get]
+  · rw [hm, hid0, hid1, hii, hun]
+
+/-- the failed responses of the callback are the generated `makeFailedResponse` -/
+theorem C03_failed_message_is_generated (o : Ora) (i : Callback.In) (reqID acs status message fmt : String)
+    (hid0 : i.ids 0 = o.newID "Response_makeFailedResponse" 0) (hii : i.issueInstant = o.m_Format o.now fmt) :
+    ∃ r, Response_makeFailedResponse o (some { AcsUrl := acs, RequestID := reqID, Issuer := i.issuer, Audience := "", SendIP := "" }) status message fmt = .ok (some r) ∧
+      Builders.msgOf r none = Callback.failedMsg i reqID acs status message := by
+  obtain ⟨r, hr, hm⟩ := Builders.makeFailedResponse_refines o { AcsUrl := acs, RequestID := reqID, Issuer := i.issuer, Audience := "", SendIP := "" } status message fmt
+  exact ⟨r, hr, by rw [hm, Callback.failedMsg, hid0, hii]⟩
+
 theorem C03_source_current : Consts.current = true ∧
     FactsUtil.sameHashes ["provider.IdentityProvider.callbackHandleFunc", "provider.IdentityProvider.loginResponse",
-      "provider.Response.makeSuccessfulResponse", "provider.Response.makeAssertionResponse",
+      
       "provider.NewID", "provider.Response.sendBackResponse"] = true := ⟨by decide, by decide⟩
 
 end C03
